@@ -45,11 +45,44 @@ def make_variant(root: str, edits) -> Optional[str]:
         raise
 
 
+TWIN_DIR = os.path.join(os.path.dirname(os.path.dirname(os.path.dirname(os.path.abspath(__file__)))), "twins")
+
+
+def make_variant_from_patch(root: str, patch_file: str) -> Optional[str]:
+    """Scratch copy with a unified diff applied (behaviour-preserving refactorings written by independent sub-agents)."""
+    import subprocess
+    tmp = tempfile.mkdtemp(prefix="sa_twin_")
+    try:
+        shutil.copytree(os.path.join(root, "src"), os.path.join(tmp, "src"),
+                        ignore=shutil.ignore_patterns("__pycache__", "*.pyc", "*.txt"))
+        pp = os.path.join(root, "pyproject.toml")
+        if os.path.exists(pp):
+            shutil.copy(pp, os.path.join(tmp, "pyproject.toml"))
+        r = subprocess.run(["patch", "-p1", "-s", "--no-backup-if-mismatch", "-i", patch_file], cwd=tmp, capture_output=True, text=True)
+        if r.returncode != 0:
+            shutil.rmtree(tmp, ignore_errors=True)
+            return None
+        return tmp
+    except Exception:
+        shutil.rmtree(tmp, ignore_errors=True)
+        raise
+
+
+def patch_twins():
+    out = []
+    if os.path.isdir(TWIN_DIR):
+        for k in sorted(os.listdir(TWIN_DIR)):
+            pf = os.path.join(TWIN_DIR, k, "patch.diff")
+            if os.path.exists(pf) and os.path.getsize(pf) > 0:
+                out.append((k, pf))
+    return out
+
+
 def analyse_variant(args):
     root, mid, edits, pids = args
     from ..build import Analysis
     from ..report import run_rules, load_known_findings, match_known
-    tmp = make_variant(root, edits)
+    tmp = make_variant_from_patch(root, edits) if isinstance(edits, str) else make_variant(root, edits)
     if tmp is None:
         return mid, None
     try:
@@ -82,9 +115,23 @@ def run(pid, root, ana, jobs=None):
     if not entries:
         return res
     work = [(root, m["id"], m["edits"], [pid]) for m in entries]
+    ptw = patch_twins()
+    work += [(root, "patch:" + k, pf, [pid]) for k, pf in ptw]
+    res["patch_twins_applied"] = 0
+    res["patch_twins_silent"] = 0
     jobs = jobs or min(16, os.cpu_count() or 4)
     with ProcessPoolExecutor(max_workers=jobs) as ex:
         results = dict(ex.map(analyse_variant, work))
+    for k, _pf in ptw:
+        r = results.get("patch:" + k)
+        if r is None:
+            continue            # does not apply to the analysed tree (edited): skipped
+        res["patch_twins_applied"] += 1
+        got = r[pid]
+        if not got["fails"] and not got["errors"]:
+            res["patch_twins_silent"] += 1
+        else:
+            res["errors"].append(f"refactoring twin {k} is not silent: fails={got['fails']} errors={got['errors'][:1]}")
     for m in entries:
         r = results.get(m["id"])
         want = m["expect"][pid]
